@@ -10,6 +10,8 @@ def opsOf (field : String) : List Site := writers.filter fun s => s.field == fie
 /-- number of `what` operations on `field` -/
 def cnt (field what : String) : Nat := ((opsOf field).filter fun s => s.what == what).length
 def total (field : String) : Nat := (opsOf field).length
+/-- the functions that perform `what` on `field` (each once, in source order) -/
+def fnsOf (field what : String) : List String := (((opsOf field).filter fun s => s.what == what).map (·.fn)).eraseDups
 def allLocked (field : String) : Bool := (opsOf field).all (·.locked)
 def noneLocked (field : String) : Bool := (opsOf field).all (!·.locked)
 
